@@ -66,8 +66,17 @@ def source(enum, variants, rule, tag, content, flavour="plain", spelling="merged
 RENAME_TEXT = {"$a_quote_b": '$a"b', "empty": ""}          # constants of MC_C02!RenameOf whose name is not the text itself
 
 
+TOK = {"<e>": "é", "<E>": "É", "<a>": "ä", "<A>": "Ä"}          # spec/Chars.tla: tokens for non-ASCII letters
+
+
+def real(s):
+    for k, v in TOK.items():
+        s = s.replace(k, v)
+    return s
+
+
 def case_variants(c):
-    vs = [(c["ident"], None if c["rename"] == "none" else RENAME_TEXT.get(c["rename"], c["rename"]), c["kind"] + ("@" + c["mark"] if c.get("mark", "none") != "none" else "")),
+    vs = [(real(c["ident"]), None if c["rename"] == "none" else RENAME_TEXT.get(c["rename"], c["rename"]), c["kind"] + ("@" + c["mark"] if c.get("mark", "none") != "none" else "")),
           ("Other", None, "unit")]
     if c["enum"] == "tagged":
         vs.append(("Last", None, "newtype"))
@@ -184,7 +193,7 @@ def run(chk):
     for c in res.replays:
         k = c["case"]
         vs = case_variants(k) + [(x["ident"], x["rename"], "newtype" if j % 2 else "unit") for j, x in enumerate(c.get("colliding", []))]
-        batch.append((k["enum"], vs, k["rule"], c["tag"], c["content"], k["flavour"] + "+" + k.get("spelling", "merged"), c["wires"], k))
+        batch.append((k["enum"], vs, k["rule"], c["tag"], c["content"], k["flavour"] + "+" + k.get("spelling", "merged"), [real(w) for w in c["wires"]], k))
     if not batch:
         raise ToolError("no cases")
     mid = batch[len(batch) // 2]
